@@ -75,6 +75,8 @@ HOSTS = [("host-hyphen", "http://forum", ".example.com/"), ("host-label", "http:
 def hosts(st, i, n, flag):
     name, pre, post = HOSTS[i]
     u = cat(pre, sym_str(st, "s", n), post)
+    # first: its default call must be the first one that sees this host on the path (module-level state)
+    run_prop(st, "amp_label_kept_after_default_call", S.amp_label_kept_after_default_call, u)
     run_prop(st, "host_only_loses_whole_irrelevant_labels", S.host_only_loses_whole_irrelevant_labels, u, True, flag)
     run_prop(st, "subdomains_kept_when_asked", S.subdomains_kept_when_asked, u)
 
